@@ -2453,7 +2453,7 @@ package sdf
 //@ end
 
 //@ func ArraySDF2.Evaluate
-//@   property C01
+//@   property C01 C02
 //@   id value-of-the-operand-at-one-grid-offset
 //@   pure
 //@   local
@@ -2487,7 +2487,7 @@ package sdf
 //@ spec off3(s *ArraySDF3, p v3.Vec, j int, k int, l int) = p.Sub(v3.Vec{real(j)*s.step.X, real(k)*s.step.Y, real(l)*s.step.Z})
 
 //@ func ArraySDF3.Evaluate
-//@   property C01
+//@   property C01 C02
 //@   id value-of-the-operand-at-one-grid-offset
 //@   pure
 //@   local
